@@ -62,6 +62,9 @@ impl Prog {
         if cos & 1 != 0 {
             out.push_str("// generated program\n\n");
         }
+        if self.sites.iter().any(|v| v.kind == Kind::Lib) {
+            out.push_str(crate::voices::LIB_HEADER);
+        }
         let mut seen = BTreeSet::new();
         for v in &self.sites {
             for (name, text) in v.defs() {
